@@ -625,7 +625,7 @@ pub mod fastq {
             old(self).position.line + 4 <= u64::MAX,
         ensures
             [C02,C03,C04,C05|fastq.increment_record.byte] final(self).position.byte == old(self).position.byte + (old(self).buf_pos.pos.1 + 1 - old(self).buf_pos.pos.0),
-            [C02,C03,C04,C05|fastq.increment_record.line] final(self).position.line == old(self).position.line + 4,
+            [C02,C03,C04,C05,C12,C17|fastq.increment_record.line] final(self).position.line == old(self).position.line + 4,
             [C02,C03,C04,C05|fastq.increment_record.start] final(self).buf_pos.pos.0 == old(self).buf_pos.pos.1 + 1,
             [C02,C03,C04,C05,C06|fastq.increment_record.frame] final(self).buf_reader == old(self).buf_reader && final(self).buf_policy == old(self).buf_policy
                 && final(self).state == old(self).state && final(self).incomplete_pos == old(self).incomplete_pos
@@ -731,7 +731,7 @@ pub mod fastq {
             self.position.line + line_offset <= u64::MAX,
             parse_id ==> self.buf_pos.pos.0 <= self.buf_pos.seq <= self.b().len(),
         ensures
-            [C17|fastq.get_error_pos.line] r.line == self.position.line + line_offset,
+            [C12,C17|fastq.get_error_pos.line] r.line == self.position.line + line_offset,
             [C17|fastq.get_error_pos.id] id_matches(r.id,
                 if parse_id && self.buf_pos.seq - self.buf_pos.pos.0 > 1 {
                     Some(id_of(trim(self.b().subrange(self.buf_pos.pos.0 + 1, self.buf_pos.seq - 1))))
@@ -904,7 +904,7 @@ pub mod fastq {
             decreases
                 (if self.base() + self.b().len() <= self.f().len() { self.f().len() - self.base() - self.b().len() } else { 0 }),
                 (if self.b().len() < self.buf_reader.cap() { 0int } else { 1int }),
-//@at depth=3 kw=return nth=0 expect="return self\.\w+\(" call=check_end
+//@at depth=3 kw=return nth=0 expect="return self\.\w+\(" call=check_end unique=1
                 proof {
                     // the buffer is not full although it was filled: it holds the end of the input
                     let (ff, a, bb, s) = (self.f(), self.base(), self.b(), self.buf_pos.pos.0 as int);
@@ -920,7 +920,7 @@ pub mod fastq {
                 }
 //@at depth=2 kw=if nth=1 expect="if let Err\(\w+\) = " call=fill_buf
             let ghost b_before = self.b();
-//@at depth=2 kw=if nth=2 expect="if let Some\(\w+\) = " call=search_incomplete
+//@at depth=2 kw=if nth=2 expect="if let Some\(\w+\) = " call=search_incomplete unique=1
             proof {
                 lemma_stuck_facts(b_before, self.buf_pos, rp(incomplete_pos));
                 lemma_chain_prefix(b_before, self.b(), self.buf_pos, rp(incomplete_pos));
@@ -1239,7 +1239,7 @@ trait RecordD {
 //@spec
         requires self.rwf(),
         ensures
-            [C04,C13|fastq.to_owned_record] r.head@ == self.head_v() && r.seq@ == self.seq_v() && r.qual@ == self.qual_v(),
+            [C02,C04,C12,C13|fastq.to_owned_record] r.head@ == self.head_v() && r.seq@ == self.seq_v() && r.qual@ == self.qual_v(),
 //@end
 
 //@fn fastq::RefRecord::write_unchanged ret=r tags=C11
@@ -1409,7 +1409,7 @@ trait RecordD {
             lemma_count_lf_mono(self.f(), 0, self.position.byte as int);
             if self.state == State::Parsing { lemma_advance(self.f(), self.base(), self.b(), self.buf_pos); }
         }
-//@at depth=1 kw=let nth=0 expect="let mut \w+ = \w+;"
+//@at depth=1 kw=let nth=0 expect="let mut \w+ = \w+;" unique=1
         let ghost mut grow_at: int = -1;
         proof { lemma_ps_empty(self.b(), self.f(), old(self).cursor(), self.state == State::Finished); assert(rset.buf_positions@ =~= Seq::<BufferPosition>::empty()); }
 //@loop 0 kw=while
@@ -1454,7 +1454,7 @@ trait RecordD {
                                 assert(run_ok(ff, p0, k0) && fmt_err(e, ff, gstart(ff, p0, k0), true_line(ff, gstart(ff, p0, k0))));
                             }
                         }
-//@at depth=3 kw=let nth=0 expect="let \w+ = match self\.search\(\)" call=search
+//@at depth=3 kw=let nth=0 expect="let \w+ = match self\.search\(\)" call=search unique=1
                 proof {
                     // whatever format error search() reports for the group in the buffer is the error of the k0-th group of the file
                     let (ff, p0) = (old(self).f(), old(self).cursor());
@@ -1488,7 +1488,7 @@ trait RecordD {
                             lemma_ps_prefix(rset.buf_positions@, b0, self.b(), self.f(), old(self).cursor());
                             reveal(ps_valid);
                         }
-//@at depth=2 kw=rset nth=0 expect="rset\.\w+\.push\("
+//@at depth=2 kw=rset nth=0 expect="rset\.\w+\.push\(" unique=1
             proof {
                 if k0 > 0 {
                     assert(self.b().subrange(0, b0.len() as int) =~= b0);
@@ -1529,7 +1529,7 @@ trait RecordD {
             [C20|fastq.RecordsIter.next.end_is_sticky] old(self).rdr.state == State::Finished ==> r is None && final(self).rdr.state == State::Finished,
             [C04,C20|fastq.RecordsIter.next.end] r is None ==> final(self).rdr.state == State::Finished
                 && (old(self).rdr.state == State::Finished || old(self).rdr.poisoned() || !old(self).rdr.clean() || end_ok(old(self).rdr.f(), old(self).rdr.cursor())),
-            [C04,C13|fastq.RecordsIter.next.record] r matches Some(Ok(o)) ==> (!old(self).rdr.poisoned() && old(self).rdr.clean() ==> ({
+            [C02,C04,C13|fastq.RecordsIter.next.record] r matches Some(Ok(o)) ==> (!old(self).rdr.poisoned() && old(self).rdr.clean() ==> ({
                     let (ff, p) = (old(self).rdr.f(), old(self).rdr.cursor());
                     &&& group_complete(ff, p) && vok(ff, p)
                     &&& o.head@ == g_head(ff, p) && o.seq@ == g_seq(ff, p) && o.qual@ == g_qual(ff, p)
@@ -1556,7 +1556,7 @@ trait RecordD {
             [C20|fastq.RecordsIntoIter.next.end_is_sticky] old(self).rdr.state == State::Finished ==> r is None && final(self).rdr.state == State::Finished,
             [C04,C20|fastq.RecordsIntoIter.next.end] r is None ==> final(self).rdr.state == State::Finished
                 && (old(self).rdr.state == State::Finished || old(self).rdr.poisoned() || !old(self).rdr.clean() || end_ok(old(self).rdr.f(), old(self).rdr.cursor())),
-            [C04,C13|fastq.RecordsIntoIter.next.record] r matches Some(Ok(o)) ==> (!old(self).rdr.poisoned() && old(self).rdr.clean() ==> ({
+            [C02,C04,C13|fastq.RecordsIntoIter.next.record] r matches Some(Ok(o)) ==> (!old(self).rdr.poisoned() && old(self).rdr.clean() ==> ({
                     let (ff, p) = (old(self).rdr.f(), old(self).rdr.cursor());
                     &&& group_complete(ff, p) && vok(ff, p)
                     &&& o.head@ == g_head(ff, p) && o.seq@ == g_seq(ff, p) && o.qual@ == g_qual(ff, p)
